@@ -361,7 +361,7 @@ def cf2d(rng, *, ny=None, nx=None, bounds=None, holes=None, shoc_simple=False, a
 # --------------------------------------------------------------------------------------------
 # Arakawa C / SHOC standard
 
-def arakawa(rng, *, nj=None, ni=None, holes=None, shoc=True, invalid=None, transposed_coords=(), orphan_nodes=False, plain=False):
+def arakawa(rng, *, nj=None, ni=None, holes=None, shoc=True, invalid=None, transposed_coords=(), orphan_nodes=False, plain=False, thirds=False):
     nj = nj or rng.randint(1, 5)
     ni = ni or rng.randint(1, 5)
     ax, ay = rng.choice([(8, 0), (8, 2), (6, -2)])
@@ -405,6 +405,10 @@ def arakawa(rng, *, nj=None, ni=None, holes=None, shoc=True, invalid=None, trans
     yg[node_missing] = numpy.nan
     xc[hole] = numpy.nan
     yc[hole] = numpy.nan
+    if thirds:
+        # coordinates that single precision cannot hold (a third of the sixteenths)
+        for arr_ in (xg, yg, xc, yc, xl, yl, xb, yb):
+            arr_ /= 3.0
     names = {'face': ('y_centre', 'x_centre'), 'left': ('y_left', 'x_left'),
              'back': ('y_back', 'x_back'), 'node': ('y_grid', 'x_grid')}
     dims = {'face': ('j_centre', 'i_centre'), 'left': ('j_left', 'i_left'),
@@ -429,7 +433,7 @@ def arakawa(rng, *, nj=None, ni=None, holes=None, shoc=True, invalid=None, trans
                                        'back': ('lat_back', 'lon_back'), 'node': ('lat_node', 'lon_node')}).bind()
     spec = {'nj': nj, 'ni': ni, 'hole': hole, 'hole_kind': hole_kind, 'xg': xg, 'yg': yg, 'xc': xc, 'yc': yc,
             'node_missing': node_missing,
-            'label': f'shoc_standard {nj}x{ni} holes={hole_kind}' + (f' stored-ij={sorted(transposed_coords)}' if transposed_coords else '') + (' plain ArakawaC' if plain else ''),
+            'label': f'shoc_standard {nj}x{ni} holes={hole_kind}' + (f' stored-ij={sorted(transposed_coords)}' if transposed_coords else '') + (' plain ArakawaC' if plain else '') + (' thirds' if thirds else ''),
             'kinds': {k: list(dims[k]) for k in ['face', 'left', 'back', 'node']},
             'kind_order': ['face', 'left', 'back', 'node']}
     return DS('shoc_standard', ds, spec)
